@@ -54,6 +54,23 @@ func TestVerifC05(t *testing.T) {
 		if !r.Thorough() {
 			cfgs = []cfgT{all[0], all[1+(wi+int(r.Seed))%3], all[4+(wi+int(r.Seed))%3], all[7+wi%2]}
 		}
+		// multi-period: a period duration that is a multiple of the (average) segment duration; values the server refuses are skipped below
+		var pdS int64
+		for _, cand := range []int64{10, 12, 20, 30, 60, 120} {
+			if cand*1000%segMS == 0 && cand*1000 >= 2*segMS {
+				pdS = cand
+				break
+			}
+		}
+		if pdS > 0 {
+			per := fmt.Sprintf("periods_%d", 3600/pdS)
+			pc := []cfgT{{"time", 40, 0, 0, per, "time:periods"}, {"tlnr", 25, segMS / 2, 0, per, "tlnr:periods:ato"}, {"time", 17, segMS - 40, 0, per, "time:periods:ato"}}
+			if r.Thorough() {
+				cfgs = append(cfgs, pc...)
+			} else {
+				cfgs = append(cfgs, pc[(wi+int(r.Seed))%3])
+			}
+		}
 		for _, c := range cfgs {
 			var parts []string
 			switch c.mode {
@@ -102,6 +119,15 @@ func TestVerifC05(t *testing.T) {
 			for i := 0; i < 10; i++ {
 				ts = append(ts, a.AvailMS(a.Ref, off, c.startS, 0)+rng.Int63n(3*a.LoopMS))
 			}
+			if c.extra != "" && pdS > 0 {
+				// period starts (and the instants at which the oldest period leaves the window) inside the swept stretch
+				lo := a.AvailMS(a.Ref, off, c.startS, 0)
+				for k := lo / (pdS * 1000); k <= lo/(pdS*1000)+3; k++ {
+					for _, d := range []int64{-1, 0, 1, 700} {
+						ts = append(ts, k*pdS*1000+d, k*pdS*1000+tsbdMS+d)
+					}
+				}
+			}
 			sort.Slice(ts, func(i, j int) bool { return ts[i] < ts[j] })
 			caseNo++
 			if !r.Begin(caseNo, fmt.Sprintf("%s/%s %q", w.Ref.Path, w.Ref.MPD, cfgURL)) {
@@ -121,6 +147,10 @@ func TestVerifC05(t *testing.T) {
 				mu := vfURL(cfgURL, w.Ref.Path, w.Ref.MPD, tm)
 				resp := vfGet(w.Srv, mu)
 				r.Eval(1)
+				if c.extra != "" && resp.Code >= 400 && strings.Contains(string(resp.Body), "not a multiple of segment duration") {
+					cls("periods-value-refused") // judged under C06
+					break
+				}
 				if resp.Code != 200 {
 					sig := fmt.Sprintf("mpd-status-%d:%s", resp.Code, c.mode)
 					if len(resp.Body) == 0 {
